@@ -27,12 +27,14 @@
 (* length over a 16-symbol alphabet with the set of families whose grammar *)
 (* accepts it (the arbitrary-string domain of the totality laws).          *)
 (***************************************************************************)
-EXTENDS Integers, Sequences, FiniteSets, TLC, Json
+EXTENDS Integers, Sequences, FiniteSets, TLC, Json, SequencesExt
 
-CONSTANTS Mode,     \* "oracle" | "trans" | "strings"
+CONSTANTS Mode,     \* "oracle" | "strings"
           Ecos,     \* families explored: subset of AllEcos
           MaxSyms,  \* strings mode: maximal number of symbols
-          Fix       \* [family -> set of token sequences] taken from /repo/semantic/testdata
+          FlagSyms, \* strings mode: grammar flags are evaluated for strings of at most this many symbols
+          Fix,      \* [family -> set of token sequences] taken from /repo/semantic/testdata
+          Wide      \* BOOLEAN: FALSE everywhere except in the cfg that exhibits Maven's own non-transitivity
 
 AllEcos == {"semver", "debian", "pypi", "maven", "rubygems", "redhat", "alpine", "nuget", "cran", "packagist"}
 NoFix == [e \in AllEcos |-> {}]
@@ -49,9 +51,10 @@ IsSIn(t, chs) == t.k = "s" /\ t.c[1] \in chs
 
 Code == [a |-> 97, b |-> 98, c |-> 99, d |-> 100, e |-> 101, f |-> 102, g |-> 103, h |-> 104, i |-> 105,
          j |-> 106, k |-> 107, l |-> 108, m |-> 109, n |-> 110, o |-> 111, p |-> 112, q |-> 113, r |-> 114,
-         s |-> 115, t |-> 116, u |-> 117, v |-> 118, w |-> 119, x |-> 120, y |-> 121, z |-> 122,
-         A |-> 65, B |-> 66, C |-> 67, D |-> 68, E |-> 69, F |-> 70, N |-> 78, P |-> 80, R |-> 82, S |-> 83,
-         T |-> 84, X |-> 88]
+         s |-> 115, t |-> 116, u |-> 117, v |-> 118, w |-> 119, x |-> 120, y |-> 121, z |-> 122, A |-> 65,
+         B |-> 66, C |-> 67, D |-> 68, E |-> 69, F |-> 70, G |-> 71, H |-> 72, I |-> 73, J |-> 74,
+         K |-> 75, L |-> 76, M |-> 77, N |-> 78, O |-> 79, P |-> 80, Q |-> 81, R |-> 82, S |-> 83,
+         T |-> 84, U |-> 85, V |-> 86, W |-> 87, X |-> 88, Y |-> 89, Z |-> 90]
 W(s) == [i \in 1..Len(s) |-> Code[s[i]]]          \* W(<<"r","c">>) = <<114,99>>
 Wd(s) == TA(W(s))
 
@@ -67,8 +70,8 @@ nH1 == TN(<<1>> \o [i \in 1..20 |-> 0])              \* 100000000000000000000
 -----------------------------------------------------------------------------
 (* ---- generic helpers ---- *)
 Sign(x) == IF x < 0 THEN -1 ELSE IF x > 0 THEN 1 ELSE 0
-Max(S) == CHOOSE x \in S : \A y \in S : y <= x
-Min(S) == CHOOSE x \in S : \A y \in S : x <= y
+SMax(S) == CHOOSE x \in S : \A y \in S : y <= x
+SMin(S) == CHOOSE x \in S : \A y \in S : x <= y
 Pos(t, ch) == {i \in 1..Len(t) : IsS(t[i], ch)}
 From(t, i) == SubSeq(t, i, Len(t))
 IsDig(c) == c >= 48 /\ c <= 57
@@ -107,7 +110,7 @@ Flat(t) == IF t = <<>> THEN <<>>
 \* split a token sequence at every separator token ch: sequence of token sequences
 RECURSIVE SplitOn(_, _)
 SplitOn(t, ch) == LET p == Pos(t, ch) IN
-                  IF p = {} THEN <<t>> ELSE <<SubSeq(t, 1, Min(p) - 1)>> \o SplitOn(From(t, Min(p) + 1), ch)
+                  IF p = {} THEN <<t>> ELSE <<SubSeq(t, 1, SMin(p) - 1)>> \o SplitOn(From(t, SMin(p) + 1), ch)
 AllTok(t, P(_)) == \A i \in 1..Len(t) : P(t[i])
 
 -----------------------------------------------------------------------------
@@ -124,11 +127,11 @@ AllTok(t, P(_)) == \A i \in 1..Len(t) : P(t[i])
    zeros are normalised away), SemVer 2.0.0 pre-release rules with labels compared
    case-insensitively, metadata ignored. *)
 SvBody(t) == IF Len(t) > 0 /\ IsA(t[1]) /\ t[1].c = <<118>> THEN Tail(t) ELSE t
-SvNoBuild(t) == LET p == Pos(t, PLUS) IN IF p = {} THEN t ELSE SubSeq(t, 1, Min(p) - 1)
-SvBuild(t) == LET p == Pos(t, PLUS) IN From(t, Min(p) + 1)
-SvCore(t) == LET u == SvNoBuild(SvBody(t)) p == Pos(u, HYP) IN IF p = {} THEN u ELSE SubSeq(u, 1, Min(p) - 1)
+SvNoBuild(t) == LET p == Pos(t, PLUS) IN IF p = {} THEN t ELSE SubSeq(t, 1, SMin(p) - 1)
+SvBuild(t) == LET p == Pos(t, PLUS) IN From(t, SMin(p) + 1)
+SvCore(t) == LET u == SvNoBuild(SvBody(t)) p == Pos(u, HYP) IN IF p = {} THEN u ELSE SubSeq(u, 1, SMin(p) - 1)
 SvHasPre(t) == Pos(SvNoBuild(SvBody(t)), HYP) # {}
-SvPre(t) == LET u == SvNoBuild(SvBody(t)) IN SplitOn(From(u, Min(Pos(u, HYP)) + 1), DOT)
+SvPre(t) == LET u == SvNoBuild(SvBody(t)) IN SplitOn(From(u, SMin(Pos(u, HYP)) + 1), DOT)
 SvNums(core) == LET parts == SplitOn(core, DOT) IN [i \in 1..Len(parts) |-> parts[i][1].c]
 SvIdentTok(x) == IsN(x) \/ IsA(x) \/ IsS(x, HYP)
 SvIdentOK(id, lzok) == id # <<>> /\ AllTok(id, SvIdentTok) /\ (lzok \/ Len(id) > 1 \/ ~IsN(id[1]) \/ NoLZ(id[1].c))
@@ -142,24 +145,27 @@ SvTailOK(t, lzok) ==
 Valid_semver(t) == SvCoreOK(SvCore(t), 3, 3, FALSE) /\ SvTailOK(t, FALSE)
 Valid_nuget(t) == SvBody(t) = t /\ SvCoreOK(SvCore(t), 2, 4, TRUE) /\ SvTailOK(t, FALSE)
 
+\* Key: the parsed form, computed once per version; KCmp compares two keys
+SvIdKey(id) == [num |-> Len(id) = 1 /\ IsN(id[1]), d |-> IF IsN(id[1]) THEN id[1].c ELSE <<>>, s |-> Flat(id), sl |-> Lower(Flat(id))]
+Key_semver(t) == [nums |-> SvNums(SvCore(t)), hasPre |-> SvHasPre(t),
+                  pre |-> IF SvHasPre(t) THEN [i \in 1..Len(SvPre(t)) |-> SvIdKey(SvPre(t)[i])] ELSE <<>>]
 SvIdCmp(x, y, ci) ==
-  LET xn == Len(x) = 1 /\ IsN(x[1])
-      yn == Len(y) = 1 /\ IsN(y[1])
-  IN IF xn /\ yn THEN NumCmp(x[1].c, y[1].c)
-     ELSE IF xn THEN -1 ELSE IF yn THEN 1
-     ELSE IF ci THEN LexCmp(Lower(Flat(x)), Lower(Flat(y))) ELSE LexCmp(Flat(x), Flat(y))
+  IF x.num /\ y.num THEN NumCmp(x.d, y.d)
+  ELSE IF x.num THEN -1 ELSE IF y.num THEN 1
+  ELSE IF ci THEN LexCmp(x.sl, y.sl) ELSE LexCmp(x.s, y.s)
 RECURSIVE SvIdsCmp(_, _, _)
 SvIdsCmp(x, y, ci) == IF x = <<>> THEN (IF y = <<>> THEN 0 ELSE -1)
                       ELSE IF y = <<>> THEN 1
                       ELSE LET c == SvIdCmp(Head(x), Head(y), ci) IN IF c # 0 THEN c ELSE SvIdsCmp(Tail(x), Tail(y), ci)
 SvCmp(a, b, ci) ==
-  LET c == NumsCmpPad(SvNums(SvCore(a)), SvNums(SvCore(b))) IN
+  LET c == NumsCmpPad(a.nums, b.nums) IN
   IF c # 0 THEN c
-  ELSE IF ~SvHasPre(a) THEN (IF SvHasPre(b) THEN 1 ELSE 0)
-  ELSE IF ~SvHasPre(b) THEN -1
-  ELSE SvIdsCmp(SvPre(a), SvPre(b), ci)
-Cmp_semver(a, b) == SvCmp(a, b, FALSE)
-Cmp_nuget(a, b) == SvCmp(a, b, TRUE)
+  ELSE IF ~a.hasPre THEN (IF b.hasPre THEN 1 ELSE 0)
+  ELSE IF ~b.hasPre THEN -1
+  ELSE SvIdsCmp(a.pre, b.pre, ci)
+KCmp_semver(a, b) == SvCmp(a, b, FALSE)
+Key_nuget(t) == Key_semver(t)
+KCmp_nuget(a, b) == SvCmp(a, b, TRUE)
 
 SvC(x, y, z) == <<x, Dot, y, Dot, z>>
 SvCores == {SvC(n0, n0, n0), SvC(n1, n0, n0), SvC(n1, n0, n1), SvC(n1, n2, n0), SvC(n1, n10, n0), SvC(n2, n0, n0),
@@ -172,6 +178,7 @@ SvPres == { <<>>,
    <<Hyp, Wd(<<"r","c">>), Dot, n1, Dot, n0>>,
    <<Hyp, n0>>, <<Hyp, n1>>, <<Hyp, n2>>, <<Hyp, n10>>, <<Hyp, nH>>, <<Hyp, nH1>>, <<Hyp, n1, Dot, n1>>, <<Hyp, n1, Dot, Wd(<<"a">>)>>,
    <<Hyp, n0, Wd(<<"a">>)>>, <<Hyp, n1, Hyp, n1>>, <<Hyp, Wd(<<"x">>), Hyp, Wd(<<"y">>)>>, <<Hyp, Wd(<<"a">>)>>,
+   <<Hyp, Hyp, n1>>, <<Hyp, Hyp, n2>>, <<Hyp, Hyp>>,
    <<Hyp, Wd(<<"A">>)>>, <<Hyp, Wd(<<"a">>), Dot, Wd(<<"b">>)>> }
 Gen_semver ==
   {c \o p : c \in SvCores, p \in SvPres}
@@ -202,9 +209,9 @@ Gen_nuget ==
    empty digit part counts as 0) } until both are exhausted. *)
 DebHasEpoch(t) == Pos(t, COLON) # {}
 DebEpoch(t) == IF DebHasEpoch(t) THEN t[1].c ELSE <<0>>
-DebRest(t) == IF DebHasEpoch(t) THEN From(t, Min(Pos(t, COLON)) + 1) ELSE t
-DebUp(t) == LET r == DebRest(t) p == Pos(r, HYP) IN IF p = {} THEN r ELSE SubSeq(r, 1, Max(p) - 1)
-DebRev(t) == LET r == DebRest(t) p == Pos(r, HYP) IN IF p = {} THEN <<n0>> ELSE From(r, Max(p) + 1)
+DebRest(t) == IF DebHasEpoch(t) THEN From(t, SMin(Pos(t, COLON)) + 1) ELSE t
+DebUp(t) == LET r == DebRest(t) p == Pos(r, HYP) IN IF p = {} THEN r ELSE SubSeq(r, 1, SMax(p) - 1)
+DebRev(t) == LET r == DebRest(t) p == Pos(r, HYP) IN IF p = {} THEN <<n0>> ELSE From(r, SMax(p) + 1)
 DebUpTok(x) == IsN(x) \/ IsA(x) \/ IsSIn(x, {DOT, PLUS, TILDE, HYP})
 DebRevTok(x) == IsN(x) \/ IsA(x) \/ IsSIn(x, {DOT, PLUS, TILDE})
 Valid_debian(t) ==
@@ -221,19 +228,25 @@ DebLex(x, y) == IF x = <<>> /\ y = <<>> THEN 0
                         ELSE DebLex(IF x = <<>> THEN x ELSE Tail(x), IF y = <<>> THEN y ELSE Tail(y))
 RECURSIVE NDLen(_)
 NDLen(t) == IF t = <<>> \/ IsN(Head(t)) THEN 0 ELSE 1 + NDLen(Tail(t))
+\* a part as the alternation the policy describes: <<non-digit characters, digits>>, ...
+RECURSIVE DebPairs(_)
+DebPairs(a) == IF a = <<>> THEN <<>>
+               ELSE LET ka == NDLen(a)  ra == From(a, ka + 1)
+                    IN << <<Flat(SubSeq(a, 1, ka)), IF ra = <<>> THEN <<>> ELSE Head(ra).c>> >> \o DebPairs(IF ra = <<>> THEN ra ELSE Tail(ra))
 RECURSIVE DebCmpStr(_, _)
 DebCmpStr(a, b) ==
   IF a = <<>> /\ b = <<>> THEN 0
-  ELSE LET ka == NDLen(a)  kb == NDLen(b)
-           c1 == DebLex(Flat(SubSeq(a, 1, ka)), Flat(SubSeq(b, 1, kb)))
-           ra == From(a, ka + 1)  rb == From(b, kb + 1)
-           c2 == NumCmp(IF ra = <<>> THEN <<0>> ELSE Head(ra).c, IF rb = <<>> THEN <<0>> ELSE Head(rb).c)
+  ELSE LET x == IF a = <<>> THEN <<<<>>, <<>>>> ELSE Head(a)
+           y == IF b = <<>> THEN <<<<>>, <<>>>> ELSE Head(b)
+           c1 == DebLex(x[1], y[1])
+           c2 == NumCmp(x[2], y[2])
        IN IF c1 # 0 THEN c1 ELSE IF c2 # 0 THEN c2
-          ELSE DebCmpStr(IF ra = <<>> THEN ra ELSE Tail(ra), IF rb = <<>> THEN rb ELSE Tail(rb))
-Cmp_debian(a, b) ==
-  LET e == NumCmp(DebEpoch(a), DebEpoch(b))
-      u == DebCmpStr(DebUp(a), DebUp(b))
-  IN IF e # 0 THEN e ELSE IF u # 0 THEN u ELSE DebCmpStr(DebRev(a), DebRev(b))
+          ELSE DebCmpStr(IF a = <<>> THEN a ELSE Tail(a), IF b = <<>> THEN b ELSE Tail(b))
+Key_debian(t) == [ep |-> DebEpoch(t), up |-> DebPairs(DebUp(t)), rev |-> DebPairs(DebRev(t))]
+KCmp_debian(a, b) ==
+  LET e == NumCmp(a.ep, b.ep)
+      u == DebCmpStr(a.up, b.up)
+  IN IF e # 0 THEN e ELSE IF u # 0 THEN u ELSE DebCmpStr(a.rev, b.rev)
 
 DebUps == { <<n1, Dot, n0>>, <<n1, Dot, n0, Dot, n0>>, <<n1, Dot, n1>>, <<n1, Dot, n10>>, <<n1, Dot, n2>>, <<n1, Dot, n01>>,
    <<n1, Dot, n0, Tilde, Wd(<<"r","c">>), n1>>, <<n1, Dot, n0, Tilde, Tilde>>, <<n1, Dot, n0, Tilde>>, <<n1, Dot, n0, Tilde, n1>>,
@@ -258,7 +271,8 @@ RECURSIVE CranCmp(_, _)
 CranCmp(x, y) == IF x = <<>> THEN (IF y = <<>> THEN 0 ELSE -1)
                  ELSE IF y = <<>> THEN 1
                  ELSE LET c == NumCmp(Head(x).c, Head(y).c) IN IF c # 0 THEN c ELSE CranCmp(Tail(x), Tail(y))
-Cmp_cran(a, b) == CranCmp(CranParts(a), CranParts(b))
+Key_cran(t) == CranParts(t)
+KCmp_cran(a, b) == CranCmp(a, b)
 CranNums == {n0, n1, n2, n10, n01, nH}
 Gen_cran == {<<x, s, y>> : x \in {n0, n1, n10, nH}, s \in {Dot, Hyp}, y \in CranNums}
             \cup {<<x, Dot, y, s, z>> : x \in {n0, n1}, y \in {n0, n1, n01, n10}, s \in {Dot, Hyp}, z \in {n0, n1, n00, nH, nH1}}
@@ -325,10 +339,9 @@ PyLocSegs(loc, cur) ==
   IF loc = <<>> THEN (IF cur = <<>> THEN <<>> ELSE <<cur>>)
   ELSE IF Head(loc).k = "s" THEN (IF cur = <<>> THEN <<>> ELSE <<cur>>) \o PyLocSegs(Tail(loc), <<>>)
   ELSE PyLocSegs(Tail(loc), Append(cur, Head(loc)))
+PySegKey(x) == [num |-> Len(x) = 1 /\ IsN(x[1]), d |-> IF IsN(x[1]) THEN x[1].c ELSE <<>>, sl |-> Lower(Flat(x))]
 PySegCmp(x, y) ==
-  LET xn == Len(x) = 1 /\ IsN(x[1])  yn == Len(y) = 1 /\ IsN(y[1])
-  IN IF xn /\ yn THEN NumCmp(x[1].c, y[1].c) ELSE IF xn THEN 1 ELSE IF yn THEN -1
-     ELSE LexCmp(Lower(Flat(x)), Lower(Flat(y)))
+  IF x.num /\ y.num THEN NumCmp(x.d, y.d) ELSE IF x.num THEN 1 ELSE IF y.num THEN -1 ELSE LexCmp(x.sl, y.sl)
 RECURSIVE PySegsCmp(_, _)
 PySegsCmp(x, y) == IF x = <<>> THEN (IF y = <<>> THEN 0 ELSE -1)
                    ELSE IF y = <<>> THEN 1
@@ -337,15 +350,16 @@ PySegsCmp(x, y) == IF x = <<>> THEN (IF y = <<>> THEN 0 ELSE -1)
 PyPreKey(p) == IF ~p.pre /\ ~p.post /\ p.dev THEN <<0, 0, <<0>>>>         \* X.devN sorts before every pre-release of X
                ELSE IF ~p.pre THEN <<2, 0, <<0>>>>                        \* no pre-release: after all of them
                ELSE <<1, p.prek, p.pren>>
-Cmp_pypi(a, b) ==
-  LET p == PyParse(a)  q == PyParse(b)
-      e == NumCmp(p.ep, q.ep)
+Key_pypi(t) == LET p == PyParse(t)  sg == PyLocSegs(p.loc, <<>>)
+               IN [p EXCEPT !.loc = [i \in 1..Len(sg) |-> PySegKey(sg[i])]]
+KCmp_pypi(p, q) ==
+  LET e == NumCmp(p.ep, q.ep)
       r == NumsCmpPad(p.rel, q.rel)
       kp == PyPreKey(p)  kq == PyPreKey(q)
       pr == IF kp[1] # kq[1] THEN Sign(kp[1] - kq[1]) ELSE IF kp[2] # kq[2] THEN Sign(kp[2] - kq[2]) ELSE NumCmp(kp[3], kq[3])
       po == IF p.post /\ q.post THEN NumCmp(p.postn, q.postn) ELSE IF p.post THEN 1 ELSE IF q.post THEN -1 ELSE 0
       de == IF p.dev /\ q.dev THEN NumCmp(p.devn, q.devn) ELSE IF p.dev THEN -1 ELSE IF q.dev THEN 1 ELSE 0
-      lo == IF p.hasLoc /\ q.hasLoc THEN PySegsCmp(PyLocSegs(p.loc, <<>>), PyLocSegs(q.loc, <<>>))
+      lo == IF p.hasLoc /\ q.hasLoc THEN PySegsCmp(p.loc, q.loc)
             ELSE IF p.hasLoc THEN 1 ELSE IF q.hasLoc THEN -1 ELSE 0
   IN IF e # 0 THEN e ELSE IF r # 0 THEN r ELSE IF pr # 0 THEN pr ELSE IF po # 0 THEN po ELSE IF de # 0 THEN de ELSE lo
 
@@ -376,23 +390,28 @@ Gen_pypi ==
 (* ---- Maven (POM reference, "Version Order Specification" = ComparableVersion) ----
    The string is split into tokens at "." and "-" and at digit/letter transitions (a transition
    counts as a hyphen); the separator before a token is recorded.  Qualifiers are
-   case-insensitive; cr = rc; ga = final = ""; a/b/m directly followed by a number mean
-   alpha/beta/milestone.  Trailing "null" tokens (0, "", final, ga) are trimmed from the end, and
+   case-insensitive; cr = rc; ga = final = release = ""; a/b/m directly followed by a number mean
+   alpha/beta/milestone.  Trailing "null" tokens (0, "", final, ga, release) are trimmed from the end, and
    again before each remaining hyphen.  Order: lexicographic on prefixed tokens, the shorter padded
    with nulls of the other's prefix (0 for ".", "" for "-"); same prefix: numbers numerically,
    qualifiers alpha < beta < milestone < rc < snapshot < "" < sp < unknown (alphabetically),
    a number above a qualifier; different prefix: .qualifier < -qualifier < -number < .number.
-   Grammar: number, then (.|-|transition) tokens; no empty tokens.
-   CANONICAL SUBSET: qualifiers are introduced by "-" or a transition only (never by "."),
-   where the specification and Maven's implementation are known to agree. *)
+   A qualifier compared with a padded "." null (the number 0) is compared with "" (the release), as
+   ComparableVersion does.
+   GRAMMAR (= canonical subset): number, then (.|-|transition) tokens, no empty tokens, and
+   qualifiers are introduced by "-" or a transition only, never by ".": with dot-qualifiers the
+   PUBLISHED order is itself not transitive (2 < 2.a < 2-alpha < 2; cfg VersionOrder-maven-dotq.cfg
+   makes TLC exhibit this on the model), so neither a total preorder nor agreement can be demanded
+   there; only the totality laws (no panic, antisymmetry, reflexivity) apply to such strings. *)
 MvTokOK(x) == IsN(x) \/ IsA(x) \/ IsSIn(x, {DOT, HYP})
-Valid_maven(t) == /\ t # <<>> /\ IsN(t[1]) /\ AllTok(t, MvTokOK) /\ t[Len(t)].k # "s"
-                  /\ \A i \in 1..(Len(t) - 1) : ~(t[i].k = "s" /\ t[i + 1].k = "s")
-Canon_maven(t) == Valid_maven(t) /\ \A i \in 1..(Len(t) - 1) : IsS(t[i], DOT) => IsN(t[i + 1])
+Wide_maven(t) == /\ t # <<>> /\ IsN(t[1]) /\ AllTok(t, MvTokOK) /\ t[Len(t)].k # "s"
+                 /\ \A i \in 1..(Len(t) - 1) : ~(t[i].k = "s" /\ t[i + 1].k = "s")
+Valid_maven(t) == Wide_maven(t) /\ \A i \in 1..(Len(t) - 1) : IsS(t[i], DOT) => IsN(t[i + 1])
+Canon_maven(t) == Valid_maven(t)
 MvQual(w, followedByNum) ==
   LET l == Lower(w) IN
   IF l = W(<<"c","r">>) THEN W(<<"r","c">>)
-  ELSE IF l \in {W(<<"g","a">>), W(<<"f","i","n","a","l">>)} THEN <<>>
+  ELSE IF l \in {W(<<"g","a">>), W(<<"f","i","n","a","l">>), W(<<"r","e","l","e","a","s","e">>)} THEN <<>>
   ELSE IF followedByNum /\ l = W(<<"a">>) THEN W(<<"a","l","p","h","a">>)
   ELSE IF followedByNum /\ l = W(<<"b">>) THEN W(<<"b","e","t","a">>)
   ELSE IF followedByNum /\ l = W(<<"m">>) THEN W(<<"m","i","l","e","s","t","o","n","e">>)
@@ -410,17 +429,21 @@ RECURSIVE MvTrim(_)
 MvTrim(it) == IF Len(it) <= 1 THEN it
               ELSE IF MvNull(it[Len(it)]) THEN MvTrim(SubSeq(it, 1, Len(it) - 1))
               ELSE LET hs == {i \in 2..Len(it) : it[i].p = 2} IN
-                   IF hs = {} THEN it ELSE MvTrim(SubSeq(it, 1, Max(hs) - 1)) \o From(it, Max(hs))
+                   IF hs = {} THEN it ELSE MvTrim(SubSeq(it, 1, SMax(hs) - 1)) \o From(it, SMax(hs))
 MvKnown == <<W(<<"a","l","p","h","a">>), W(<<"b","e","t","a">>), W(<<"m","i","l","e","s","t","o","n","e">>), W(<<"r","c">>),
              W(<<"s","n","a","p","s","h","o","t">>), <<>>, W(<<"s","p">>)>>
 MvQIdx(q) == IF \E i \in 1..7 : MvKnown[i] = q THEN CHOOSE i \in 1..7 : MvKnown[i] = q ELSE 8
 MvQCmp(x, y) == LET i == MvQIdx(x) j == MvQIdx(y) IN IF i # j THEN Sign(i - j) ELSE IF i = 8 THEN LexCmp(x, y) ELSE 0
 MvClass(x) == IF x.num THEN (IF x.p = 1 THEN 3 ELSE 2) ELSE (IF x.p = 1 THEN 0 ELSE 1)
+MvIsPad(x) == "pad" \in DOMAIN x
 MvItemCmp(x, y) ==
   IF x.p = y.p \/ x.p = 0 \/ y.p = 0
-  THEN IF x.num /\ y.num THEN NumCmp(x.v, y.v) ELSE IF x.num THEN 1 ELSE IF y.num THEN -1 ELSE MvQCmp(x.v, y.v)
+  THEN IF x.num /\ y.num THEN NumCmp(x.v, y.v)
+       ELSE IF x.num THEN (IF MvIsPad(x) THEN MvQCmp(<<>>, y.v) ELSE 1)
+       ELSE IF y.num THEN (IF MvIsPad(y) THEN MvQCmp(x.v, <<>>) ELSE -1)
+       ELSE MvQCmp(x.v, y.v)
   ELSE Sign(MvClass(x) - MvClass(y))
-MvPad(other) == IF other.p = 1 THEN [p |-> 1, num |-> TRUE, v |-> <<0>>] ELSE [p |-> other.p, num |-> FALSE, v |-> <<>>]
+MvPad(other) == IF other.p = 1 THEN [p |-> 1, num |-> TRUE, v |-> <<0>>, pad |-> TRUE] ELSE [p |-> other.p, num |-> FALSE, v |-> <<>>]
 RECURSIVE MvCmpItems(_, _)
 MvCmpItems(x, y) ==
   IF x = <<>> /\ y = <<>> THEN 0
@@ -429,7 +452,8 @@ MvCmpItems(x, y) ==
            c == MvItemCmp(a, b)
        IN IF c # 0 THEN c ELSE MvCmpItems(IF x = <<>> THEN x ELSE Tail(x), IF y = <<>> THEN y ELSE Tail(y))
 MvNorm(t) == MvTrim(MvItems(t, 1, 0))
-Cmp_maven(a, b) == MvCmpItems(MvNorm(a), MvNorm(b))
+Key_maven(t) == MvNorm(t)
+KCmp_maven(a, b) == MvCmpItems(a, b)
 
 MvBases == {<<n1>>, <<n1, Dot, n0>>, <<n1, Dot, n0, Dot, n0>>, <<n1, Dot, n1>>, <<n1, Dot, n01>>, <<n1, Dot, n0, Dot, n1>>, <<n1, Dot, n10>>,
             <<n2>>, <<n2, Dot, n0>>, <<n1, Dot, nH>>, <<n1, Dot, nH1>>}
@@ -473,7 +497,8 @@ RgCmpSegs(x, y) ==
            b == IF y = <<>> THEN n0 ELSE Head(y)
            c == IF IsN(a) /\ IsN(b) THEN NumCmp(a.c, b.c) ELSE IF IsA(a) /\ IsN(b) THEN -1 ELSE IF IsN(a) /\ IsA(b) THEN 1 ELSE LexCmp(a.c, b.c)
        IN IF c # 0 THEN c ELSE RgCmpSegs(IF x = <<>> THEN x ELSE Tail(x), IF y = <<>> THEN y ELSE Tail(y))
-Cmp_rubygems(a, b) == RgCmpSegs(RgCanon(a), RgCanon(b))
+Key_rubygems(t) == RgCanon(t)
+KCmp_rubygems(a, b) == RgCmpSegs(a, b)
 RgBases == {<<n1>>, <<n1, Dot, n0>>, <<n1, Dot, n0, Dot, n0>>, <<n1, Dot, n1>>, <<n1, Dot, n01>>, <<n1, Dot, n10>>, <<n1, Dot, n0, Dot, n1>>,
             <<n2>>, <<n0, Dot, n9>>, <<n1, Dot, nH>>, <<nH>>, <<nH1>>}
 RgTails == { <<>>, <<Dot, Wd(<<"a">>)>>, <<Dot, Wd(<<"a">>), n1>>, <<Dot, Wd(<<"a">>), Dot, n1>>, <<Dot, Wd(<<"a">>), n2>>, <<Dot, Wd(<<"a">>), n10>>,
@@ -514,22 +539,23 @@ Rpm(a0, b0) ==
           IN IF c # 0 THEN c ELSE Rpm(Tail(a), Tail(b))
 RhHasEpoch(t) == Pos(t, COLON) # {}
 RhEpoch(t) == IF RhHasEpoch(t) THEN t[1].c ELSE <<0>>
-RhRest(t) == IF RhHasEpoch(t) THEN From(t, Min(Pos(t, COLON)) + 1) ELSE t
+RhRest(t) == IF RhHasEpoch(t) THEN From(t, SMin(Pos(t, COLON)) + 1) ELSE t
 RhHasRel(t) == Pos(RhRest(t), HYP) # {}
-RhVer(t) == LET r == RhRest(t) p == Pos(r, HYP) IN IF p = {} THEN r ELSE SubSeq(r, 1, Min(p) - 1)
-RhRel(t) == LET r == RhRest(t) IN From(r, Min(Pos(r, HYP)) + 1)
+RhVer(t) == LET r == RhRest(t) p == Pos(r, HYP) IN IF p = {} THEN r ELSE SubSeq(r, 1, SMin(p) - 1)
+RhRel(t) == LET r == RhRest(t) IN From(r, SMin(Pos(r, HYP)) + 1)
 RhTok(x) == IsN(x) \/ IsA(x) \/ IsSIn(x, {DOT, USC, PLUS, TILDE, CARET})
 RhPartOK(p) == p # <<>> /\ (IsN(p[1]) \/ IsA(p[1])) /\ AllTok(p, RhTok)
 Valid_redhat(t) ==
   /\ RhHasEpoch(t) => Len(t) >= 3 /\ IsN(t[1]) /\ IsS(t[2], COLON) /\ Cardinality(Pos(t, COLON)) = 1
   /\ RhPartOK(RhVer(t))
   /\ RhHasRel(t) => RhPartOK(RhRel(t))
-Cmp_redhat(a, b) ==
-  LET e == NumCmp(RhEpoch(a), RhEpoch(b))
-      v == Rpm(RhVer(a), RhVer(b))
+Key_redhat(t) == [ep |-> RhEpoch(t), ver |-> RhVer(t), hasRel |-> RhHasRel(t), rel |-> IF RhHasRel(t) THEN RhRel(t) ELSE <<>>]
+KCmp_redhat(a, b) ==
+  LET e == NumCmp(a.ep, b.ep)
+      v == Rpm(a.ver, b.ver)
   IN IF e # 0 THEN e ELSE IF v # 0 THEN v
-     ELSE IF RhHasRel(a) /\ RhHasRel(b) THEN Rpm(RhRel(a), RhRel(b))
-     ELSE IF RhHasRel(a) THEN 1 ELSE IF RhHasRel(b) THEN -1 ELSE 0
+     ELSE IF a.hasRel /\ b.hasRel THEN Rpm(a.rel, b.rel)
+     ELSE IF a.hasRel THEN 1 ELSE IF b.hasRel THEN -1 ELSE 0
 RhVers == { <<n1, Dot, n0>>, <<n1, Dot, n0, Dot, n0>>, <<n1, Dot, n1>>, <<n1, Dot, n01>>, <<n1, Dot, n10>>, <<n2, Dot, n0>>, <<n1>>,
    <<n1, Dot, n0, Wd(<<"a">>)>>, <<n1, Dot, n0, Dot, Wd(<<"a">>)>>, <<n1, Dot, n0, Wd(<<"a","a">>)>>, <<n1, Dot, n0, Wd(<<"b">>), n1>>,
    <<n1, Dot, n0, Wd(<<"A">>)>>, <<n1, Dot, n0, Dot, Wd(<<"r","c">>), n1>>, <<n1, Dot, n0, Tilde, Wd(<<"r","c">>), n1>>,
@@ -597,9 +623,9 @@ ApSufsCmp(x, y) ==
        ELSE IF a[2] = <<>> /\ b[2] # <<>> THEN -1          \* a number token continues the longer one
        ELSE IF a[2] # <<>> /\ b[2] = <<>> THEN 1
        ELSE LET c == NumCmp(a[2], b[2]) IN IF c # 0 THEN c ELSE ApSufsCmp(Tail(x), Tail(y))
-Cmp_alpine(a, b) ==
-  LET p == ApParse(a)  q == ApParse(b)
-      c1 == ApNumsCmp(p.nums, q.nums)
+Key_alpine(t) == ApParse(t)
+KCmp_alpine(p, q) ==
+  LET c1 == ApNumsCmp(p.nums, q.nums)
       c2 == Sign(p.letter - q.letter)
       c3 == ApSufsCmp(p.sufs, q.sufs)
   IN IF c1 # 0 THEN c1 ELSE IF c2 # 0 THEN c2 ELSE IF c3 # 0 THEN c3
@@ -657,7 +683,8 @@ PkCmpParts(x, y) ==
            c == IF IsN(a) /\ IsN(b) THEN NumCmp(a.c, b.c)
                 ELSE Sign((IF IsN(a) THEN 4 ELSE PkOrder(a.c)) - (IF IsN(b) THEN 4 ELSE PkOrder(b.c)))
        IN IF c # 0 THEN c ELSE PkCmpParts(Tail(x), Tail(y))
-Cmp_packagist(a, b) == PkCmpParts(RgSegs(PkBody(a)), RgSegs(PkBody(b)))
+Key_packagist(t) == RgSegs(PkBody(t))
+KCmp_packagist(a, b) == PkCmpParts(a, b)
 PkCores == {<<n1, Dot, n0, Dot, n0>>, <<n1, Dot, n0, Dot, n1>>, <<n1, Dot, n2, Dot, n0>>, <<n1, Dot, n10, Dot, n0>>, <<n2, Dot, n0, Dot, n0>>,
             <<n1, Dot, n0, Dot, n01>>, <<n0, Dot, n9, Dot, n9>>, <<n1, Dot, n0, Dot, nH>>, <<nH, Dot, n0, Dot, n0>>}
 PkTails == { <<>>, <<Hyp, Wd(<<"d","e","v">>)>>, <<Hyp, Wd(<<"a","l","p","h","a">>)>>, <<Hyp, Wd(<<"a","l","p","h","a">>), n1>>, <<Hyp, Wd(<<"a","l","p","h","a">>), n2>>,
@@ -676,27 +703,40 @@ Valid(e, t) == CASE e = "semver" -> Valid_semver(t) [] e = "nuget" -> Valid_nuge
                  [] e = "packagist" -> Valid_packagist(t)
 Canon(e, t) == CASE e = "maven" -> Canon_maven(t) [] e = "alpine" -> Canon_alpine(t) [] e = "packagist" -> Canon_packagist(t)
                  [] OTHER -> Valid(e, t)
-Cmp(e, a, b) == CASE e = "semver" -> Cmp_semver(a, b) [] e = "nuget" -> Cmp_nuget(a, b) [] e = "debian" -> Cmp_debian(a, b)
-                  [] e = "cran" -> Cmp_cran(a, b) [] e = "pypi" -> Cmp_pypi(a, b) [] e = "maven" -> Cmp_maven(a, b)
-                  [] e = "rubygems" -> Cmp_rubygems(a, b) [] e = "redhat" -> Cmp_redhat(a, b) [] e = "alpine" -> Cmp_alpine(a, b)
-                  [] e = "packagist" -> Cmp_packagist(a, b)
+Key(e, t) == CASE e = "semver" -> Key_semver(t) [] e = "nuget" -> Key_nuget(t) [] e = "debian" -> Key_debian(t)
+               [] e = "cran" -> Key_cran(t) [] e = "pypi" -> Key_pypi(t) [] e = "maven" -> Key_maven(t)
+               [] e = "rubygems" -> Key_rubygems(t) [] e = "redhat" -> Key_redhat(t) [] e = "alpine" -> Key_alpine(t)
+               [] e = "packagist" -> Key_packagist(t)
+KCmp(e, a, b) == CASE e = "semver" -> KCmp_semver(a, b) [] e = "nuget" -> KCmp_nuget(a, b) [] e = "debian" -> KCmp_debian(a, b)
+                  [] e = "cran" -> KCmp_cran(a, b) [] e = "pypi" -> KCmp_pypi(a, b) [] e = "maven" -> KCmp_maven(a, b)
+                  [] e = "rubygems" -> KCmp_rubygems(a, b) [] e = "redhat" -> KCmp_redhat(a, b) [] e = "alpine" -> KCmp_alpine(a, b)
+                  [] e = "packagist" -> KCmp_packagist(a, b)
+\* the published comparison of two versions of family e
+Cmp(e, a, b) == KCmp(e, Key(e, a), Key(e, b))
 Gen(e) == CASE e = "semver" -> Gen_semver [] e = "nuget" -> Gen_nuget [] e = "debian" -> Gen_debian [] e = "cran" -> Gen_cran
             [] e = "pypi" -> Gen_pypi [] e = "maven" -> Gen_maven [] e = "rubygems" -> Gen_rubygems [] e = "redhat" -> Gen_redhat
             [] e = "alpine" -> Gen_alpine [] e = "packagist" -> Gen_packagist
 
 \* fixture versions that lie in the canonical grammar (the others are outside every claim)
-FixCanon(e) == {t \in Fix[e] : Canon(e, t)}
-\* the domain on which Cmp(e) is checked and ranked
-Dom == [e \in Ecos |-> Gen(e) \cup FixCanon(e)]
-\* rank = number of strictly smaller versions; sign(Rank[a] - Rank[b]) = Cmp(a, b) iff Cmp is a total preorder
-Rank == TLCEval([e \in Ecos |-> [v \in Dom[e] |-> Cardinality({b \in Dom[e] : Cmp(e, b, v) < 0})]])
+FixCanon(e) == {t \in Fix[e] : IF Wide /\ e = "maven" THEN Wide_maven(t) ELSE Canon(e, t)}
+MavenDotQ == [e \in AllEcos |-> IF e = "maven" THEN {<<n2>>, <<n2, Dot, Wd(<<"a">>)>>, <<n2, Hyp, Wd(<<"a","l","p","h","a">>)>>} ELSE {}]
+\* the domain on which Cmp(e) is checked and ranked: enumerated once, addressed by index, keys parsed once
+OEcos == IF Mode = "strings" THEN {} ELSE Ecos          \* no tables in strings mode
+Dom == TLCEval([e \in OEcos |-> SetToSeq(Gen(e) \cup FixCanon(e))])
+N(e) == Len(Dom[e])
+Keys == TLCEval([e \in OEcos |-> [i \in 1..N(e) |-> Key(e, Dom[e][i])]])
+\* the comparison table of the domain, computed once: Mx[e][i][j] = Cmp(e, Dom[e][i], Dom[e][j])
+Mx == TLCEval([e \in OEcos |-> [i \in 1..N(e) |-> [j \in 1..N(e) |-> KCmp(e, Keys[e][i], Keys[e][j])]]])
+C(e, i, j) == Mx[e][i][j]
+\* rank = number of strictly smaller versions; sign(Rank[a] - Rank[b]) = Cmp(a, b) for all a, b iff Cmp is a total preorder
+Rank == TLCEval([e \in OEcos |-> [i \in 1..N(e) |-> Cardinality({j \in 1..N(e) : C(e, j, i) < 0})]])
 
 -----------------------------------------------------------------------------
 (* ---- state machine ----
-   oracle / trans mode: pick a family, then a version a (then, in trans mode, a version b).
+   oracle mode: pick a family, then a version a (emitted with its rank), then a version b.
    strings mode: append symbols of the 16-symbol alphabet; maximal runs merge into tokens. *)
-VARIABLES phase, eco, va, vb, syms
-vars == <<phase, eco, va, vb, syms>>
+VARIABLES phase, eco, ia, ib, syms
+vars == <<phase, eco, ia, ib, syms>>
 
 Symbols == {n0, n1, n2, n10, n00, nH, Wd(<<"a">>), Wd(<<"r","c">>), Dot, Hyp, Plus, Tilde, Colon, Usc, Bang, Space}
 RECURSIVE Merge(_)            \* symbol sequence -> token sequence (adjacent digit / letter symbols form one token)
@@ -706,39 +746,43 @@ Merge(s) == IF Len(s) <= 1 THEN s
                      x == s[Len(s)]
                  IN IF l.k = x.k /\ x.k # "s" THEN SubSeq(m, 1, Len(m) - 1) \o <<[k |-> x.k, c |-> l.c \o x.c]>> ELSE Append(m, x)
 
-Init == /\ phase = "start" /\ eco = "" /\ va = <<>> /\ vb = <<>> /\ syms = <<>>
-PickEco(e) == phase = "start" /\ Mode \in {"oracle", "trans"} /\ eco' = e /\ phase' = "eco" /\ UNCHANGED <<va, vb, syms>>
-PickA(v) == phase = "eco" /\ va' = v /\ phase' = "a" /\ UNCHANGED <<eco, vb, syms>>
-PickB(v) == phase = "a" /\ Mode = "trans" /\ vb' = v /\ phase' = "ab" /\ UNCHANGED <<eco, va, syms>>
-AddSym(x) == Mode = "strings" /\ Len(syms) < MaxSyms /\ syms' = Append(syms, x) /\ phase' = "str" /\ UNCHANGED <<eco, va, vb>>
-Next == \/ \E e \in Ecos : PickEco(e)
-        \/ \E v \in (IF phase = "eco" THEN Dom[eco] ELSE {}) : PickA(v)
-        \/ \E v \in (IF phase = "a" /\ Mode = "trans" THEN Dom[eco] ELSE {}) : PickB(v)
+Init == /\ phase = "start" /\ eco = "" /\ ia = 0 /\ ib = 0 /\ syms = <<>>
+PickEco(e) == phase = "start" /\ Mode = "oracle" /\ eco' = e /\ phase' = "eco" /\ UNCHANGED <<ia, ib, syms>>
+PickA(i) == phase = "eco" /\ ia' = i /\ phase' = "a" /\ UNCHANGED <<eco, ib, syms>>
+PickB(i) == phase = "a" /\ ib' = i /\ phase' = "ab" /\ UNCHANGED <<eco, ia, syms>>
+AddSym(x) == Mode = "strings" /\ Len(syms) < MaxSyms /\ syms' = Append(syms, x) /\ phase' = "str" /\ UNCHANGED <<eco, ia, ib>>
+Next == \/ \E e \in OEcos : PickEco(e)
+        \/ \E i \in (IF phase = "eco" THEN 1..N(eco) ELSE {}) : PickA(i)
+        \/ \E i \in (IF phase = "a" THEN 1..N(eco) ELSE {}) : PickB(i)
         \/ \E x \in Symbols : AddSym(x)
 Spec == Init /\ [][Next]_vars
 
 -----------------------------------------------------------------------------
 (* ---- properties of the model (they validate the oracle) ---- *)
-\* every enumerated version is canonical, hence grammatical
-GenIsCanon == phase = "a" => Canon(eco, va) /\ Valid(eco, va)
-Reflexive == phase = "a" => Cmp(eco, va, va) = 0
-AntiSym == phase = "a" => \A b \in Dom[eco] : Cmp(eco, va, b) \in {-1, 0, 1} /\ Cmp(eco, va, b) = -Cmp(eco, b, va)
-\* Cmp is represented by the rank function: equivalent to "total preorder" given AntiSym, and cheap
-RankRepresents == phase = "a" => \A b \in Dom[eco] : Cmp(eco, va, b) = Sign(Rank[eco][va] - Rank[eco][b])
-\* the same stated directly on all triples (trans mode)
-Leq(e, x, y) == Cmp(e, x, y) <= 0
-Transitive == phase = "ab" /\ Leq(eco, va, vb) => \A c \in Dom[eco] : Leq(eco, vb, c) => Leq(eco, va, c)
-EqIsEquivalence == phase = "ab" /\ Cmp(eco, va, vb) = 0 => \A c \in Dom[eco] : Cmp(eco, va, c) = Cmp(eco, vb, c)
+\* every enumerated version is canonical, hence grammatical; the cached key is the key
+GenIsCanon == phase = "a" => Canon(eco, Dom[eco][ia]) /\ Valid(eco, Dom[eco][ia])
+Reflexive == phase = "a" => C(eco, ia, ia) = 0 /\ Cmp(eco, Dom[eco][ia], Dom[eco][ia]) = 0
+\* the table is the comparison (spot check of the caching: the cyclic successor of a)
+TableIsCmp == phase = "a" => LET j == (ia % N(eco)) + 1 IN C(eco, ia, j) = Cmp(eco, Dom[eco][ia], Dom[eco][j])
+AntiSym == phase = "a" => \A j \in 1..N(eco) : C(eco, ia, j) \in {-1, 0, 1} /\ C(eco, ia, j) = -C(eco, j, ia)
+\* Cmp is represented by the rank function: equivalent to "total preorder", and cheap to check
+RankRepresents == phase = "a" => \A j \in 1..N(eco) : C(eco, ia, j) = Sign(Rank[eco][ia] - Rank[eco][j])
+\* the same stated directly on all triples: states (a,b), quantified c
+Transitive == phase = "ab" /\ C(eco, ia, ib) <= 0 => \A k \in 1..N(eco) : C(eco, ib, k) <= 0 => C(eco, ia, k) <= 0
+EqIsEquivalence == phase = "ab" /\ C(eco, ia, ib) = 0 => \A k \in 1..N(eco) : C(eco, ia, k) = C(eco, ib, k)
 
 \* case emission: one record per version of the domain, one per symbol string
-OracleCase == [eco |-> eco, tokens |-> va, rank |-> Rank[eco][va], gen |-> va \in Gen(eco), fix |-> va \in Fix[eco]]
-EmitOracle == phase = "a" /\ Mode = "oracle" => PrintT(ToJson(OracleCase))
-StringCase == [syms |-> syms, valid |-> {e \in Ecos : Valid(e, Merge(syms))}, canon |-> {e \in Ecos : Canon(e, Merge(syms))}]
+OracleCase == [eco |-> eco, tokens |-> Dom[eco][ia], rank |-> Rank[eco][ia],
+               gen |-> Dom[eco][ia] \in Gen(eco), fix |-> Dom[eco][ia] \in Fix[eco]]
+EmitOracle == phase = "a" => PrintT(ToJson(OracleCase))
+StringCase == LET t == Merge(syms) IN
+              IF Len(syms) <= FlagSyms THEN [syms |-> syms, valid |-> {e \in Ecos : Valid(e, t)}, canon |-> {e \in Ecos : Canon(e, t)}]
+              ELSE [syms |-> syms, valid |-> {}, canon |-> {}]
 EmitStrings == phase = "str" => PrintT(ToJson(StringCase))
-CanonIsValid == phase = "str" => \A e \in Ecos : Canon(e, Merge(syms)) => Valid(e, Merge(syms))
+CanonIsValid == phase = "str" /\ Len(syms) <= FlagSyms => \A e \in Ecos : Canon(e, Merge(syms)) => Valid(e, Merge(syms))
 
 \* sanity (must be violated): the order is not trivial - some version is strictly between two others
-Sanity == ~(phase = "a" /\ \E b, c \in Dom[eco] : Cmp(eco, b, va) < 0 /\ Cmp(eco, va, c) < 0)
+Sanity == ~(phase = "a" /\ \E j, k \in 1..N(eco) : C(eco, j, ia) < 0 /\ C(eco, ia, k) < 0)
 \* sanity (must be violated): some string is grammatical in one family and not in another
 SanityStrings == ~(phase = "str" /\ \E e, f \in Ecos : Valid(e, Merge(syms)) /\ ~Valid(f, Merge(syms)))
 =============================================================================
